@@ -62,6 +62,7 @@ def rand_templates(rng):
         ts = {"props": "empty", "extra": [], "charts": rng.choice([0, 1])}
     elif r < 0.52:
         ts = {"props": "partial", "extra": [["CREDIT", "tmpl"], ["X", "y"]][: rng.randrange(0, 3)], "charts": rng.choice([0, 0, 1])}
+        ts["props"] = rng.choice(["partial", "partial", "unversioned", "lateversion"])     # a template need not start with a version tag, nor carry one
     if rng.random() < 0.3:
         pool = [["CHARTNAME", "t"], ["CREDIT", "c"], ["DISPLAYBPM", "90.000:180.000"], ["ATTACKS", "TIME=1.5:LEN=2:MODS=drunk"], ["DISPLAYBPM", "*"], ["ATTACKS", None],
                 ["CHARTSTYLE", None], ["OFFSET", "0.250"], ["MUSIC", "chart.ogg"], ["RADARVALUES", "1,2,3"]]     # OFFSET alone does not make a chart its own timing source
@@ -80,6 +81,10 @@ def corpus():
                 "ts": None, "tc": {"extra": [], "empty": False, "notes2": False, "partial": True}})        # F12: chart template lacking copied fields; NOTES must stay last
     out.append({"src": [[["OFFSET", "0"], ["BPMS", "0.000=120.000"], ["STOPS", ""]], [["dance-single", "b", "Easy", "1", "0,0", "0000", []]]],
                 "ts": {"props": "partial", "extra": [], "charts": 1}, "tc": {"extra": [["CREDIT", "c"]], "empty": False, "notes2": False, "partial": True}})
+    for kind in ("unversioned", "lateversion"):
+        for ver in ([], [["VERSION", "0.81"]]):
+            out.append({"src": [[["OFFSET", "0"], ["BPMS", "0.000=120.000"], ["STOPS", ""]] + ver, [["dance-single", "b", "Easy", "1", "0,0", "0000", []]]],
+                        "ts": {"props": kind, "extra": [], "charts": 0}, "tc": None})
     return out
 
 
@@ -103,7 +108,9 @@ def build(c):
     ts = tc = None
     if c["ts"]:
         ts = (SSCSimfile.blank() if c["ts"]["props"] == "blank" else
-              SSCSimfile(string="#VERSION:0.83;#TITLE:from a short template;#SELECTABLE:NO;") if c["ts"]["props"] == "partial" else SSCSimfile(string=""))
+              SSCSimfile(string="#VERSION:0.83;#TITLE:from a short template;#SELECTABLE:NO;") if c["ts"]["props"] == "partial" else
+              SSCSimfile(string="#TITLE:from a template without a version tag;#SELECTABLE:NO;") if c["ts"]["props"] == "unversioned" else
+              SSCSimfile(string="#TITLE:from a template;#VERSION:0.83;#SELECTABLE:NO;") if c["ts"]["props"] == "lateversion" else SSCSimfile(string=""))
         for kk, vv in c["ts"]["extra"]:
             ts[kk] = vv
         for j in range(c["ts"]["charts"]):
